@@ -95,6 +95,13 @@ def work_small(shard):
     for tl in prod.iter_range(lo, hi):
         out["graphs"] += 1
         tabcheck = True
+        # history: a call that fails (final state outside the graph) must leave nothing behind for the calls that follow
+        for bad in ([n + 1, 0], [n - 1, n + 1], [0, -n - 2, n - 1]):
+            try:
+                R.reverse_dfs([list(r) for r in tl], bad)
+            except Exception:                                # noqa: BLE001
+                pass
+            out["failing_calls_interleaved"] = out.get("failing_calls_interleaved", 0) + 1
         multi = None
         for f in fins:
             res = check_one(tl, f, table=tabcheck)
@@ -194,7 +201,48 @@ def work_board(shard):
     return out
 
 
+def sparse_cases(n, full):
+    """graphs on n nodes in which only a path through 2-3 arbitrarily numbered nodes reaches the final state (so the
+    result is a short list of possibly high, non-consecutive indices, in which a missing sort shows)"""
+    out = []
+    nodes = range(n)
+    for i in nodes:
+        for j in nodes:
+            if i == j:
+                continue
+            out.append(((i, j), j))
+            for k in nodes:
+                if k in (i, j):
+                    continue
+                if full or (i * 7 + j * 3 + k) % 11 == 0:
+                    out.append(((i, j, k), k))
+    return out
+
+
+def work_sparse(shard):
+    n, full = shard
+    out = {"calls": 0, "graphs": 0, "violations": [], "nontrivial": 0, "samples": [], "sparse": 0}
+    for path, fin in sparse_cases(n, full):
+        tl = [[] for _ in range(n)]
+        for a, b in zip(path, path[1:]):
+            tl[a].append((LABEL, b))
+        res = check_one(tl, [fin], table=False)
+        out["calls"] += 1
+        out["graphs"] += 1
+        out["sparse"] += 1
+        out["nontrivial"] += 1
+        if res and len(out["violations"]) < 3:
+            c = mk_case(tl, [fin], res, "sparse n=%d path=%s" % (n, "-".join(map(str, path))))
+            c["input"] = {"transition_list": [list(r) for r in tl], "final_states": [fin]}
+            c["family"] = "sparse"
+            out["violations"].append(c)
+    out["samples"].append({"family": "sparse path", "n": n, "cases": out["calls"]})
+    return out
+
+
 def _dispatch(shard):
+    if shard[0] == "sparse":
+        return work_sparse(shard[1:])
     kind = shard[0]
     if kind == "small":
         return work_small(shard[1:])
@@ -220,6 +268,8 @@ def plan(ctx):
     for name in ("chain", "rchain", "cycle", "bintree", "ladder", "dag", "selfloops"):
         for s in sizes:
             shards.append(("ladder", name, s))
+    for n, full in ((9, True), (10, True), (12, True), (17, True), (33, False), (65, False), (130, False)):
+        shards.append(("sparse", n, full or ctx.thorough and n <= 33))
     boards = [(3, 200), (1, 1500), (40, 10)] if ctx.thorough else [(3, 200), (1, 400)]
     for w, l in boards:
         shards.append(("board", w, l))
@@ -232,7 +282,7 @@ def run(ctx):
     tot = par.run_shards(_dispatch, shards, ctx.jobs)
     expected_calls = sum(s["graphs"] * s["final_sequences"] for s in spaces)
     truncated = tot.get("truncated", 0)
-    if not truncated and tot["calls"] - tot.get("ladder", 0) - 3 * tot.get("boards", 0) != expected_calls:
+    if not truncated and tot["calls"] - tot.get("ladder", 0) - 3 * tot.get("boards", 0) - tot.get("sparse", 0) != expected_calls:
         raise par.HarnessError("C07: enumerated %d calls, expected %d" % (tot["calls"], expected_calls))
     if tot["nontrivial"] < 2:
         raise par.HarnessError("C07 vacuity guard: no graph with a doubly-reached state")
@@ -241,7 +291,8 @@ def run(ctx):
            "rule": "every directed multigraph in the listed spaces x every final sequence (order and repetitions "
                    "included) is a distinct case; non-trivial = some node has in-degree >= 2 (a state reached through "
                    "two predecessors or a parallel edge), plus every ladder/board graph",
-           "spaces": spaces, "ladder_graphs": tot.get("ladder", 0), "board_files": tot.get("boards", 0),
+           "spaces": spaces, "sparse_path_graphs_9_to_130_nodes": tot.get("sparse", 0),
+           "failing_calls_interleaved": tot.get("failing_calls_interleaved", 0), "ladder_graphs": tot.get("ladder", 0), "board_files": tot.get("boards", 0),
            "exhaustive": not truncated, "samples": tot["samples"]}
     return {"coverage": cov, "violations": tot["violations"],
             "assumptions": ["oracle: breadth-first closure over reversed edges written independently in the harness",
@@ -263,5 +314,11 @@ def replay(case):
                                       max_lines=len(g["transition_list"]) * 2000 + 10**6)
         return repr(val) if (st != "ok" or val) else None
     inp = case["input"]
+    nn = len(inp["transition_list"])
+    for bad in ([nn + 1, 0], [nn - 1, nn + 1], [0, -nn - 2, nn - 1]):
+        try:
+            R.reverse_dfs([[tuple(t) for t in row] for row in inp["transition_list"]], bad)
+        except Exception:                                    # noqa: BLE001
+            pass
     res = check_one([[tuple(t) for t in row] for row in inp["transition_list"]], inp["final_states"])
     return repr(res) if res else None
